@@ -96,7 +96,7 @@ theorem makeDb_ok {toTaxa : Name → List Label → List Taxon} {progs : List Pr
     (h : makeDb toTaxa progs = .ok db) :
     db.importations = completeImportations (directD progs) ∧
     exportations (pathsOf progs) (completeImportations (directD progs)) = .ok db.exportations ∧
-    db.labels = sortKeys (collect (labelOcc (labelled progs))) ∧
+    db.labels = sortKeys (collectNew (labelOcc (labelled progs))) ∧
     db.taxa = sortKeys (collect (taxonOcc (taxaed toTaxa progs))) ∧
     db.programs =
       progs.foldl (fun d p => set d p.path (recordOf toTaxa (internalOf progs) p)) [] := by
@@ -423,5 +423,106 @@ theorem index_inAt (occ : List (Name × Name)) (k p : Name) :
     have hp := mem_occOf.mpr h
     have hne : occOf occ k ≠ [] := fun e => by rw [e] at hp; cases hp
     exact ⟨occOf occ k, by simp [hne], hp⟩
+
+/-! ## The labels index after fix F47 -/
+
+theorem indexNew_get? (occ : List (Name × Name)) (k : Name) :
+    get? (sortKeys (collectNew occ)) k =
+      if occOf occ k = [] then none else some (dedupAdj (occOf occ k)) := by
+  rw [(sortKeys_props _ (nodup_keys_collectNew occ)).2.1, get?_collectNew]
+
+theorem indexNew_inAt (occ : List (Name × Name)) (k p : Name) :
+    InAt (sortKeys (collectNew occ)) k p ↔ (k, p) ∈ occ := by
+  unfold InAt
+  rw [indexNew_get?]
+  constructor
+  · rintro ⟨l, hl, hp⟩
+    split at hl
+    · cases hl
+    · simp only [Option.some.injEq] at hl
+      rw [← hl, mem_dedupAdj] at hp
+      exact mem_occOf.mp hp
+  · intro h
+    have hp := mem_occOf.mpr h
+    have hne : occOf occ k ≠ [] := fun e => by rw [e] at hp; cases hp
+    exact ⟨dedupAdj (occOf occ k), by simp [hne], (mem_dedupAdj _ _).mpr hp⟩
+
+theorem occOf_append (a b : List (Name × Name)) (k : Name) :
+    occOf (a ++ b) k = occOf a k ++ occOf b k := by
+  simp [occOf]
+
+theorem occOf_block (e : Name × List Label) (k : Name) :
+    ∀ x ∈ occOf (e.2.map fun l => (l.name, e.1)) k, x = e.1 := by
+  intro x hx
+  simp only [occOf, List.mem_map, List.mem_filter, decide_eq_true_eq] at hx
+  obtain ⟨o, ⟨⟨l, -, rfl⟩, -⟩, rfl⟩ := hx
+  rfl
+
+theorem getLast?_addNew (l : List Name) (a : Name) : (addNew l a).getLast? = some a := by
+  unfold addNew
+  split
+  · rename_i h; exact h
+  · simp
+
+/-- a block of equal values adds its value at most once -/
+theorem foldl_addNew_const (xs l : List Name) (a : Name) (h : ∀ x ∈ xs, x = a) :
+    xs.foldl addNew l = if xs = [] then l else addNew l a := by
+  induction xs generalizing l with
+  | nil => rfl
+  | cons x t ih =>
+    have hx : x = a := h x List.mem_cons_self
+    subst hx
+    simp only [List.foldl_cons, List.cons_ne_nil, if_false]
+    rw [ih _ (fun y hy => h y (List.mem_cons_of_mem _ hy))]
+    split
+    · rfl
+    · have := getLast?_addNew l x
+      unfold addNew at this ⊢
+      split
+      · rename_i hl; simp [hl]
+      · rename_i hl
+        simp [hl] at this ⊢
+
+/-- **Each path at most once.** With distinct program paths, the list of a label name in the index is
+duplicate-free: the occurrences come grouped by program, and a group adds its path once. -/
+theorem nodup_foldl_addNew_labelOcc (lab : List (Name × List Label)) (k : Name) (acc : List Name)
+    (hn : (keys lab).Nodup) (hacc : acc.Nodup) (hdis : ∀ a ∈ acc, a ∉ keys lab) :
+    ((occOf (labelOcc lab) k).foldl addNew acc).Nodup := by
+  induction lab generalizing acc with
+  | nil => simpa [labelOcc, occOf] using hacc
+  | cons e t ih =>
+    have hocc : occOf (labelOcc (e :: t)) k =
+        occOf (e.2.map fun l => (l.name, e.1)) k ++ occOf (labelOcc t) k := by
+      simp only [labelOcc, List.flatMap_cons]
+      exact occOf_append _ _ k
+    rw [hocc, List.foldl_append, foldl_addNew_const _ _ e.1 (occOf_block e k)]
+    simp only [keys, List.map_cons, List.nodup_cons] at hn
+    have he : e.1 ∉ acc := fun h => hdis e.1 h (by simp [keys])
+    split
+    · apply ih _ hn.2 hacc
+      intro a ha hk
+      exact hdis a ha (by simp only [keys, List.map_cons, List.mem_cons]; exact Or.inr hk)
+    · have hadd : addNew acc e.1 = acc ++ [e.1] := by
+        unfold addNew
+        split
+        · rename_i hl; exact absurd (List.mem_of_getLast? hl) he
+        · rfl
+      rw [hadd]
+      apply ih _ hn.2
+      · rw [List.nodup_append]
+        refine ⟨hacc, by simp, ?_⟩
+        intro a ha b hb
+        simp only [List.mem_singleton] at hb
+        rw [hb]; intro e'; exact he (e' ▸ ha)
+      · intro a ha hk
+        rcases List.mem_append.mp ha with h | h
+        · exact hdis a h (by simp only [keys, List.map_cons, List.mem_cons]; exact Or.inr hk)
+        · simp only [List.mem_singleton] at h
+          rw [h] at hk
+          exact hn.1 (by simpa [keys] using hk)
+
+theorem nodup_dedupAdj_labelOcc (lab : List (Name × List Label)) (k : Name) (hn : (keys lab).Nodup) :
+    (dedupAdj (occOf (labelOcc lab) k)).Nodup :=
+  nodup_foldl_addNew_labelOcc lab k [] hn (by simp) (by simp)
 
 end Paroxy.DB
